@@ -45,6 +45,8 @@ W2 = {"name": "w2", "ignore": "out/\n", "package_dir": "out/pk", "buildpacks": [
     {"id": "verif/a", "dir": "a", "kind": "libcnb", "pkg": "bp-a", "bins": ["bp-a", "helper", "zz-tool"]},
     {"id": "verif/m1", "dir": "composites/m1", "kind": "composite", "deps": ["../../other/o", "libcnb:verif/a"]},
     {"id": "verif/m2", "dir": "composites/m2", "kind": "composite", "deps": ["libcnb:verif/m1", "urn:cnb:registry:x/y@1.0.0"]},
+    # only path / registry dependencies, no libcnb: reference (packaged alone from its own directory, nothing else is packaged first)
+    {"id": "verif/m3", "dir": "composites/m3", "kind": "composite", "deps": ["../../other/o", "./vendored/../vendored/x", "docker://docker.io/e/x:1"]},
     {"id": "verif/other", "dir": "other/o", "kind": "other"},
 ]}
 W3 = {"name": "w3", "ignore": "packaged/\n", "package_dir": None, "buildpacks": [
